@@ -542,6 +542,47 @@ func checkC05(c *Ctx) {
 	}
 
 	c05DropOnlyUnverified(c, "C05.12")
+	// C05.17 a leader that holds a QC proposes: every ruleset's ProposeRule refuses only a sync info without a QC
+	for _, t := range []string{"ChainedHotStuff", "SimpleHotStuff", "FastHotStuff"} {
+		pr := p.Method("protocol/rules", t, "ProposeRule")
+		if pr == nil {
+			c.Unresolved("C05.17", t+".ProposeRule", "anchor missing")
+			continue
+		}
+		fpr := NewFlow(p, pr)
+		var bad []string
+		for _, r := range returnsOf(pr) {
+			if !fpr.Reachable(r.Block()) || len(r.Results) != 2 {
+				continue
+			}
+			refuses := false
+			for _, lf := range leaves(fpr, retValue(r, 1), r) {
+				if isBoolConst(lf.Val, false) {
+					refuses = true
+				} else if !isBoolConst(lf.Val, true) {
+					// the flag of the QC look-up handed on: false exactly when there is no QC
+					if !strings.HasPrefix(lf.KeyIn(fpr), "(hs.SyncInfo).QC(") {
+						refuses = true
+					}
+				}
+			}
+			if !refuses {
+				continue
+			}
+			noQC := func(f Fact) bool { return f.Op == "false" && strings.HasPrefix(f.L, "(hs.SyncInfo).QC(") && strings.HasSuffix(f.L, "#1") }
+			ok := branchDominates(fpr, r, noQC)
+			for f := range fpr.At(r) {
+				if noQC(f) {
+					ok = true
+				}
+			}
+			if !ok {
+				bad = append(bad, p.Pos(r.Pos()))
+			}
+		}
+		c.Check(len(bad) == 0, "C05.17", t+".ProposeRule: refuses only a sync info without a QC", p.FuncPos(pr),
+			"ok == false is returned only under cert.QC() reporting no QC", "the rule refuses to propose at "+join(bad)+" although the sync info carries a QC: the leader never proposes")
+	}
 	// C05.16 what a replica tells others about its state (the sync info in its timeout messages) carries both its highest
 	// QC and its highest TC: a replica that fell behind during a run of failed views catches up through the TC
 	if sif := p.Method("protocol", "ViewStates", "SyncInfo"); sif != nil {
